@@ -90,8 +90,9 @@ def same(val, ref, x, tag):
         ref = ref.item() if MODE == 'symbolic' else float(ref)
     if isarray(ref):
         ix = tuple(skolem(d, 'e%d' % k) for k, d in enumerate(x.shape))
-        sh = shape_is(val, *x.shape) if isarray(val) else False
-        return And(sh, approx(elem(val, *ix) if isarray(val) else val, elem(ref, *ix), 1e-7))
+        if not isarray(val):
+            return approx(val, elem(ref, *ix), 1e-7)          # a python scalar carried where an array is expected broadcasts
+        return And(shape_is(val, *x.shape), approx(elem(val, *ix), elem(ref, *ix), 1e-7))
     if isarray(val):
         return False
     return approx(val, ref, 1e-7)
